@@ -42,3 +42,37 @@ Theorem C33_spec_expired_hides_older : forall ws k ts now e,
   spec_latest ws k ts None = Some e -> deleted_or_expired e now = true -> vis ws k ts now = None.
 Proof. exact C33_spec_expired_hides_older_aux. Qed.
 Print Assumptions C33_spec_expired_hides_older.
+
+(* ---- every iterator path (C05 theorems instantiated for expiry) ---- *)
+From Verif Require EntOrderProofs IterOrderProofs IterSpecProofs.
+(* any direction, any Seek / Prefix / SinceTs combination, not AllVersions: no item a transaction
+   iterator yields is deleted or expired at the iterator's clock *)
+Theorem C33_every_iteration_hides_expired : forall o rts now banned m seek e,
+  EntOrderProofs.ssorted m -> io_all o = false -> In e (iterate o rts now banned m seek) ->
+  deleted_or_expired e now = false.
+Proof.
+  intros o rts now banned m seek e S A H.
+  exact (proj2 (proj2 (proj2 (IterSpecProofs.iterate_sound o rts now banned m seek e S H))) A).
+Qed.
+Print Assumptions C33_every_iteration_hides_expired.
+
+(* forward iteration: when the newest version at or below the read timestamp is expired (or a
+   delete marker) the key does not appear at all — no older version shows through; when it is
+   live, exactly that version appears *)
+Theorem C33_iteration_expired_newest_hides_key : forall o rts now banned m k,
+  io_all o = false -> EntOrderProofs.ssorted m -> IterOrderProofs.cut o m = m ->
+  find (fun e => bytes_eqb (e_key e) k) (fwd_items o rts now banned m None) =
+  match IterOrderProofs.first_nonskip o rts banned m k with
+  | Some e => if deleted_or_expired e now then None else Some e
+  | None => None
+  end.
+Proof. exact IterOrderProofs.fwd_items_lookup. Qed.
+Print Assumptions C33_iteration_expired_newest_hides_key.
+
+(* AllVersions is the one path that shows expired entries and delete markers (as documented) *)
+Theorem C33_all_versions_shows_expired : forall o rts now banned m,
+  io_all o = true ->
+  fwd_items o rts now banned m None =
+  filter (fun e => negb (skip_common o rts banned e)) (IterOrderProofs.cut o m).
+Proof. exact IterOrderProofs.fwd_items_all. Qed.
+Print Assumptions C33_all_versions_shows_expired.
